@@ -235,6 +235,9 @@ class Env(object):
     self.terminated = 0
     self.players = []         # AudioThread objects in order of creation
     self.pas = []             # FakePyAudio objects in order of creation: one per manager
+    self.rec_streams = []     # FakeInStream objects in order of record() calls
+    self.recordings = []      # the RecStream objects returned by record()
+    self.rec_outs = []        # output of every record / rec_stop / rec_take / close command
     self.event_mgr = []       # manager index of every entry of self.events
     self.cur_mgr = 0          # manager whose command the control script is executing
 
@@ -364,6 +367,31 @@ class FakeStream(object):
     _write_stream(self._stream, frames, num_frames, exception_on_underflow)
 
 
+class FakeInStream(object):
+  """Device stream opened by AudioIO.record: read() delivers, for recording i, chunk j, position t, the
+  float sample 1000*i + chunk*j + t (Rec.v: dev), and raises after `c17_avail` chunks.  Recordings are
+  only touched by the control thread, so these calls are not yield points."""
+  def __init__(self, pa, idx, kw):
+    self._pa, self.idx, self.kw = pa, idx, kw
+    self.avail = kw.get("c17_avail", 10 ** 6)
+    self.open = True
+    self.reads = 0
+
+  def read(self, n, exception_on_overflow=True):
+    if self.reads >= self.avail:
+      raise IOError("fake device: no more input")
+    j = self.reads
+    self.reads += 1
+    return _struct.pack("%df" % n, *[float(1000 * self.idx + n * j + t) for t in range(n)])
+
+  def close(self):
+    self.open = False
+    self._pa._c17_streams.discard(self)
+
+  def stop_stream(self):
+    pass
+
+
 class FakePyAudio(object):
   def __init__(self):
     self._c17_streams = set()
@@ -377,6 +405,12 @@ class FakePyAudio(object):
     return self._env.sched.op("streams_read", lambda: set(self._c17_streams))
 
   def open(self, **kw):
+    if kw.get("input"):
+      e = self._env
+      st = FakeInStream(self, len(e.rec_streams), kw)
+      e.rec_streams.append(st)
+      self._c17_streams.add(st)
+      return st
     def act():
       e = self._env
       st = FakeStream(self, len(e.streams), kw)
@@ -665,6 +699,11 @@ def run_schedule(wait, script, choose, dfmt="f", max_steps=4000, strategy="struc
 
   def snapshot():
     snap = final_of(0)
+    reg = getattr(aios[0], "_recordings", [])
+    snap["rec"] = {"outs": list(e.rec_outs),
+                   "recs": [next((i for i, r in enumerate(e.recordings) if r is x), 999) for x in reg],
+                   "open": [bool(st.open) for st in e.rec_streams],
+                   "reads": [st.reads for st in e.rec_streams]}
     snap["events"] = [list(x) for x in e.events]   # tear-down (finally clauses of aborted threads) adds more
     if len(aios) > 1:
       snap["mgrs"] = [project(m) for m in range(len(aios))]
@@ -702,6 +741,21 @@ def run_schedule(wait, script, choose, dfmt="f", max_steps=4000, strategy="struc
             aio.play(data, chunk_size=cmd[1], channels=cmd[2], dfmt=fmt)
         except _th.ThreadError:
           e.emit(["play_raise"], m)
+      elif k == "record":                    # ["record", chunk_size, chunks the device delivers]
+        e.recordings.append(aio.record(chunk_size=cmd[1], c17_avail=cmd[2]))
+        e.rec_outs.append(None)
+      elif k == "rec_stop":
+        if cmd[1] < len(e.recordings):
+          e.recordings[cmd[1]].stop()
+        e.rec_outs.append(None)
+      elif k == "rec_take":
+        out = []
+        if cmd[1] < len(e.recordings):
+          try:
+            out = [int(v) for v in e.recordings[cmd[1]].take(cmd[2])]
+          except IOError:
+            out = "raise"
+        e.rec_outs.append(out)
       elif k in ("pause", "resume", "stop"):
         if cmd[1] < len(local_players(m)):
           t = local_players(m)[cmd[1]]
@@ -730,6 +784,9 @@ def run_schedule(wait, script, choose, dfmt="f", max_steps=4000, strategy="struc
           e.emit(["close_ret", flags(m)], m)
         except AssertionError:
           e.emit(["assert_fail"], m)
+        except (TypeError, ValueError, IOError) as ex:      # close itself raised
+          e.emit(["close_raise", type(ex).__name__], m)
+        e.rec_outs.append(None)
 
   saved_default = lazy_io.chunks.default
   lazy_io.chunks.default = lazy_io.chunks[strategy]       # the documented way to pick the playing blockenizer
